@@ -97,9 +97,10 @@ type Scenario struct {
 	Via          string `json:"via"` // memory | oci
 	Tamper       bool   `json:"tamper"`
 	ReproPair    bool   `json:"reproPair"`
-	Foreign      uint64 `json:"foreign,omitempty"`   // != 0: also push a re-ordered archive of the first directory (seed)
-	DstSetgid    bool   `json:"dstSetgid,omitempty"` // the second store's working directory is set-group-ID: every directory made in it inherits the bit
-	NonRoot      bool   `json:"nonRoot,omitempty"`   // run by an unprivileged user (uid 65534): permission checks of the kernel apply
+	Foreign      uint64 `json:"foreign,omitempty"`     // != 0: also push a re-ordered archive of the first directory (seed)
+	ForeignPerm  int    `json:"foreignPerm,omitempty"` // > 0: ONLY push the archive of the first directory with its entries in the (n-1)-th permutation
+	DstSetgid    bool   `json:"dstSetgid,omitempty"`   // the second store's working directory is set-group-ID: every directory made in it inherits the bit
+	NonRoot      bool   `json:"nonRoot,omitempty"`     // run by an unprivileged user (uid 65534): permission checks of the kernel apply
 }
 
 func hx(s string) string   { return hex.EncodeToString([]byte(s)) }
@@ -973,7 +974,40 @@ func fetchAll(ctx context.Context, s interface {
 
 var scenarioNo int
 
+// runForeignOnly pushes one re-ordered archive of the scenario's first directory and nothing else.
+func runForeignOnly(sc *Scenario) {
+	scenarioNo++
+	work := filepath.Join(run.Dir, "w", fmt.Sprint(scenarioNo))
+	mkdirPlain(work)
+	defer os.RemoveAll(work)
+	scJSON, _ := json.Marshal(sc)
+	old := syscall.Umask(sc.Umask)
+	defer syscall.Umask(old)
+	foreignCase(context.Background(), sc, " #"+hex.EncodeToString(scJSON), work, sc.Items[0])
+}
+
+// nthPermutation reorders es into its k-th permutation (factorial number system).
+func nthPermutation(es []fent, k int) []fent {
+	pool := append([]fent{}, es...)
+	var out []fent
+	for n := len(pool); n > 0; n-- {
+		f := 1
+		for i := 2; i < n; i++ {
+			f *= i
+		}
+		i := (k / f) % n
+		k %= f
+		out = append(out, pool[i])
+		pool = append(pool[:i], pool[i+1:]...)
+	}
+	return out
+}
+
 func runScenarioInner(sc *Scenario) {
+	if sc.ForeignPerm > 0 {
+		runForeignOnly(sc)
+		return
+	}
 	scenarioNo++
 	ctx := context.Background()
 	work := filepath.Join(run.Dir, "w", fmt.Sprint(scenarioNo))
@@ -1664,6 +1698,10 @@ func foreignCase(ctx context.Context, sc *Scenario, tail, work string, it Item) 
 	var es []fent
 	walkEntries(it.Tree, name, &es)
 	variant := r.Intn(7)
+	if sc.ForeignPerm > 0 {
+		variant = 7
+		es = nthPermutation(es, sc.ForeignPerm-1)
+	}
 	switch variant {
 	case 1: // no root entry
 		es = es[1:]
@@ -1890,6 +1928,53 @@ func runChild(replay string) {
 	os.RemoveAll(filepath.Join(dir, "w"))
 }
 
+// enumPerms pushes, for every small-scope tree with at most four archive entries, the archive in
+// EVERY order of its entries (quick: every step-th tree): the order-dependent parts of
+// extractTarDirectory (missing parents, links checked against what is already there, the last
+// entry of a directory counting) against the model, exhaustively in a small scope.
+func enumPerms(step int) {
+	targets := []string{".", "a", "b", "b/a", "../t/a", "a/x/y"}
+	f := func(n string) *Node {
+		return &Node{Kind: "f", Name: hx(n), Mode: 0o640, Mtime: baseTime, Mtime2: baseTime, Seed: 5, Len: 3}
+	}
+	l := func(n, t string) *Node {
+		return &Node{Kind: "l", Name: hx(n), Mtime: baseTime, Mtime2: baseTime, Target: hx(t)}
+	}
+	d := func(n string, m uint32, ch ...*Node) *Node {
+		return &Node{Kind: "d", Name: hx(n), Mode: m, Mtime: baseTime, Mtime2: baseTime, Children: ch}
+	}
+	var shapes []*Node
+	for _, t := range targets {
+		shapes = append(shapes, d("", 0o755, f("a"), l("b", t)), d("", 0o750, d("a", 0o500, l("b", t))), d("", 0o755, d("a", 0o2755), l("b", t)),
+			d("", 0o755, l("a", t), l("b", "a")), d("", 0o1777, d("b", 0o555, f("a")), l("a", t)))
+	}
+	shapes = append(shapes, d("", 0o700), d("", 0o755, f("a")), d("", 0o755, d("a", 0o555, d("b", 0o500, f("c")))), d("", 0o755, d("a", 0o700, f("b")), f("b")))
+	n := 0
+	for i, root := range shapes {
+		if i%step != 0 {
+			continue
+		}
+		var es []fent
+		walkEntries(root, "t", &es)
+		if len(es) > 4 {
+			continue
+		}
+		perms := 1
+		for k := 2; k <= len(es); k++ {
+			perms *= k
+		}
+		for k := 0; k < perms; k++ {
+			for _, pres := range []bool{false, true} {
+				sc := &Scenario{Op: "S", Umask: 0o027, Preserve: pres, Via: "memory", ForeignPerm: k + 1,
+					Items: []Item{{Name: hx("t"), Tree: cloneNode(root)}}}
+				runScenario(sc)
+				n++
+			}
+		}
+	}
+	run.Extra["entry_order_permutations"] = n
+}
+
 func main() {
 	run = common.Start("C12")
 	defer run.Finish()
@@ -1944,7 +2029,7 @@ func main() {
 		return
 	}
 	if *nonRootFlag {
-		n := run.Scale(120, 2000)
+		n := run.Scale(100, 2000)
 		for i := 0; i < n; i++ {
 			runScenario(genScenario(run.Rand.Fork(), 1000+i))
 		}
@@ -1955,7 +2040,8 @@ func main() {
 	} else {
 		enumSmall([]bool{run.Seed%2 == 1})
 	}
-	n := run.Scale(600, 12000)
+	enumPerms(run.Scale(3, 1))
+	n := run.Scale(450, 12000)
 	for i := 0; i < n; i++ {
 		sc := genScenario(run.Rand.Fork(), i)
 		runScenario(sc)
